@@ -96,7 +96,7 @@ pub fn replay(v: &Value) -> Outcome {
             let ev = run_safe(&tables, &text, ro);
             o.evals += 1;
             let (ok, kind) = verdict(&ev);
-            if kind == "MaxParsingDepthExceeded" {
+            if kind == "MaxParsingDepthExceeded" || kind == "UserError" {
                 o.tag("resolved_table_runs_away");
             }
             if kind == "PANIC" {
